@@ -315,6 +315,15 @@ func (d *drv) exec(c *tcase) bool {
 	case "errkill":
 		cfg.Kind, cfg.FailAt, cfg.KillAfterAck = "error", c.K, true
 	}
+	if c.Op == "RECOVER" {
+		// the directory a killed process left behind: the remote has deleted m1 while a session still showed it (marked for
+		// deletion, file present); the process died before that session's state was released
+		pre, err := runWorker(wcfg{Mode: "run", Dir: dir, UserID: d.userID, Op: "RELEASE", Kind: "kill", FailAt: 1}, 120*time.Second)
+		if err != nil || !pre.Killed {
+			d.r.Machinery("%s: cannot prepare the directory (RELEASE killed in front of its first step): %v", c.sig(), err)
+			return false
+		}
+	}
 	res, err := runWorker(cfg, 120*time.Second)
 	if err != nil {
 		d.r.Machinery("%s: worker: %v", c.sig(), err)
@@ -376,7 +385,9 @@ func (d *drv) exec(c *tcase) bool {
 			d.r.Machinery("spec out of date: %s: the specification says the operation is answered %s, the server answered %s %s", c.sig(), c.Ack, ack.Status, ack.Text)
 			ok = false
 		}
-		if lv := res.find("live"); lv == nil || lv.Obs == nil {
+		if c.Op == "RECOVER" && res.find("startfailed") != nil {
+			// the server did not start: nothing to observe live, nothing to shut down
+		} else if lv := res.find("live"); lv == nil || lv.Obs == nil {
 			d.r.Machinery("%s: no live observation\n%s", c.sig(), tail(res.Stderr))
 			return false
 		} else if lv.Obs.Err != "" {
@@ -388,7 +399,8 @@ func (d *drv) exec(c *tcase) bool {
 				d.violate(c, "live-state-not-allowed", fmt.Sprintf("after the operation was answered %s a fresh session on the running server sees\n   %s\nthe specification allows\n   %s", ack.Status, have, want))
 			}
 		}
-		if cl := res.find("closed"); cl == nil {
+		if c.Op == "RECOVER" && res.find("startfailed") != nil {
+		} else if cl := res.find("closed"); cl == nil {
 			d.r.Machinery("%s: the worker did not report its shutdown\n%s", c.sig(), tail(res.Stderr))
 			return false
 		} else if cl.Err != "" {
@@ -856,6 +868,12 @@ func devTrace(r *ev.Run) {
 		if err := copyDir(setupDir, d); err != nil {
 			r.Machinery("%v", err)
 			return
+		}
+		if op == "RECOVER" {
+			if pre, err := runWorker(wcfg{Mode: "run", Dir: d, UserID: se.User, Op: "RELEASE", Kind: "kill", FailAt: 1}, 60*time.Second); err != nil || !pre.Killed {
+				r.Machinery("pre-state of RECOVER: %v %+v", err, pre)
+				return
+			}
 		}
 		res, err := runWorker(wcfg{Mode: "run", Dir: d, UserID: se.User, Op: op, Kind: kind, FailAt: fail}, 60*time.Second)
 		if err != nil {
